@@ -1342,6 +1342,7 @@ theorem foldl_stepA_congr :
 
 variable [IsStrictOrderedRing α]
 
+omit [IsStrictOrderedRing α] in
 theorem clamp01_monotone : Monotone (clamp01 : α → α) := by
   intro x y h
   exact min_le_min le_rfl (max_le_max le_rfl h)
@@ -1389,6 +1390,281 @@ theorem foldl_stepA_set {l l' : List (Gr × Bounds α)}
   · exact stepA_comm hxy z
 
 end AggRow
+
+/-! ### the upward pass of a connective is order-free -/
+
+section UpCongr
+variable {ι : Type} [DecidableEq ι] {α : Type} [Field α] [LinearOrder α]
+
+/-- the proposal for operator grounding `g` reading the operand groundings `opgs` -/
+def itemOf (kb : FKB ι α) (i : ι) (s1 : FState ι α) (g : Gr) (opgs : List Gr) :
+    Option (Gr × Bounds α) :=
+  let bs := List.zipWith (fun j g => Table.getD (kb j).world (s1.get j) g) (kb i).ops opgs
+  if (bs.take 2).any (isContra (kb i).alpha) then none else some (g, fActUp (kb i) bs)
+
+def upItems (kb : FKB ι α) (i : ι) (s1 : FState ι α) (ogs : List Gr) (per : List (List Gr)) :
+    List (Gr × Bounds α) :=
+  (List.range ogs.length).filterMap fun k => itemOf kb i s1 (ogs.getD k []) (rowsOf per k)
+
+theorem fUpConn_eq (kb : FKB ι α) (i : ι) (s : FState ι α) :
+    fUpConn kb i s =
+      match groundings kb i false s with
+      | (s1, none) => (s1, 0)
+      | (s1, some (ogs, per)) =>
+        (s1.set i ((upItems kb i s1 ogs per).foldl stepA (s1.get i, 0)).1,
+          ((upItems kb i s1 ogs per).foldl stepA (s1.get i, 0)).2) := rfl
+
+theorem map_getD_range {A : Type} (l : List A) (d : A) :
+    (List.range l.length).map (fun k => l.getD k d) = l := by
+  apply List.ext_getElem
+  · simp
+  · intro k h1 h2
+    simp [List.getD_eq_getElem?_getD, List.getElem?_eq_getElem h2]
+
+theorem upItems_eq (kb : FKB ι α) (i : ι) (s1 : FState ι α) (ogs : List Gr) (per : List (List Gr))
+    (opF : Gr → List Gr) (hF : ∀ k < ogs.length, rowsOf per k = opF (ogs.getD k [])) :
+    upItems kb i s1 ogs per = ogs.filterMap fun g => itemOf kb i s1 g (opF g) := by
+  unfold upItems
+  conv_rhs => rw [← map_getD_range ogs []]
+  rw [List.filterMap_map]
+  apply List.filterMap_congr
+  intro k hk
+  simp only [Function.comp, hF k (List.mem_range.mp hk)]
+
+theorem itemOf_fst {kb : FKB ι α} {i : ι} {s1 : FState ι α} {g : Gr} {o : List Gr}
+    {x : Gr × Bounds α} (h : itemOf kb i s1 g o = some x) : x.1 = g := by
+  unfold itemOf at h
+  simp only at h
+  split at h
+  · cases h
+  · simp only [Option.some.injEq] at h
+    rw [← h]
+
+theorem itemOf_congr (kb : FKB ι α) (i : ι) {s1 s1' : FState ι α} (h : SEq s1 s1') (g : Gr)
+    (o : List Gr) : itemOf kb i s1 g o = itemOf kb i s1' g o := by
+  have e : (fun j g => Table.getD (kb j).world (s1.get j) g) =
+      fun j g => Table.getD (kb j).world (s1'.get j) g := by
+    funext j g
+    exact (h j).getD _ _
+  unfold itemOf
+  rw [e]
+
+/-- operand groundings as a function of the operator grounding, join branch -/
+def hetF (n : FNode ι α) (g : Gr) : List Gr := n.opmap.map fun m => m.map fun c => g.getD c 0
+
+/-- … and union branch -/
+def homF (n : FNode ι α) (g : Gr) : List Gr := n.ops.map fun _ => g
+
+omit [DecidableEq ι] [Field α] [LinearOrder α] in
+theorem rowsOf_hom (n : FNode ι α) (gs : List Gr) (k : Nat) :
+    rowsOf (n.ops.map fun _ => gs) k = homF n (gs.getD k []) := by
+  simp [rowsOf, homF]
+
+theorem project_eq_of_slots {cols r m : List Nat} {N : Nat} (hm : ∀ c ∈ m, c < N) :
+    Rel.project cols r m = m.map fun c => (Rel.project cols r (List.range N)).getD c 0 := by
+  unfold Rel.project
+  apply List.map_congr_left
+  intro c hc
+  simp [List.getD_eq_getElem?_getD, hm c hc]
+
+omit [DecidableEq ι] [Field α] [LinearOrder α] in
+theorem rowsOf_het (n : FNode ι α) (J : Rel) (hslots : ∀ m ∈ n.opmap, ∀ c ∈ m, c < numVars n)
+    (k : Nat) (hk : k < (ogsOf n J).length) :
+    rowsOf (perOf n J) k = hetF n ((ogsOf n J).getD k []) := by
+  have hk' : k < J.rows.length := by simpa [ogsOf] using hk
+  simp only [rowsOf, perOf, hetF, ogsOf, List.map_map]
+  apply List.map_congr_left
+  intro m hm
+  simp only [Function.comp, List.getD_eq_getElem?_getD, List.getElem?_map,
+    List.getElem?_eq_getElem hk', Option.map_some, Option.getD_some]
+  exact project_eq_of_slots (hslots m hm)
+
+variable [IsStrictOrderedRing α]
+
+/-- the fold of `fUpConn`, from `SEq` states and lists of operator groundings with the same set
+of elements whose operand groundings are given by one function `opF` -/
+theorem up_core (kb : FKB ι α) (i : ι) {s1 s1' : FState ι α} (h1 : SEq s1 s1')
+    {ogs ogs' : List Gr} {per per' : List (List Gr)} (opF : Gr → List Gr)
+    (hF : ∀ k < ogs.length, rowsOf per k = opF (ogs.getD k []))
+    (hF' : ∀ k < ogs'.length, rowsOf per' k = opF (ogs'.getD k []))
+    (hset : ∀ g, g ∈ ogs ↔ g ∈ ogs') :
+    TEq ((upItems kb i s1 ogs per).foldl stepA (s1.get i, 0)).1
+        ((upItems kb i s1' ogs' per').foldl stepA (s1'.get i, 0)).1 ∧
+      ((upItems kb i s1 ogs per).foldl stepA (s1.get i, 0)).2 =
+        ((upItems kb i s1' ogs' per').foldl stepA (s1'.get i, 0)).2 := by
+  rw [upItems_eq kb i s1 ogs per opF hF, upItems_eq kb i s1' ogs' per' opF hF']
+  have hG : (fun g => itemOf kb i s1' g (opF g)) = fun g => itemOf kb i s1 g (opF g) := by
+    funext g
+    exact (itemOf_congr kb i h1 g _).symm
+  rw [hG]
+  have hfun : ∀ x ∈ ogs.filterMap (fun g => itemOf kb i s1 g (opF g)),
+      ∀ y ∈ ogs.filterMap (fun g => itemOf kb i s1 g (opF g)), x.1 = y.1 → x = y := by
+    intro x hx y hy hxy
+    obtain ⟨gx, _, ex⟩ := List.mem_filterMap.mp hx
+    obtain ⟨gy, _, ey⟩ := List.mem_filterMap.mp hy
+    have e1 := itemOf_fst ex
+    have e2 := itemOf_fst ey
+    have : gx = gy := by rw [← e1, ← e2, hxy]
+    subst this
+    rw [ex] at ey
+    exact Option.some.inj ey
+  have hmem : ∀ y, y ∈ ogs.filterMap (fun g => itemOf kb i s1 g (opF g)) ↔
+      y ∈ ogs'.filterMap (fun g => itemOf kb i s1 g (opF g)) := by
+    intro y
+    simp only [List.mem_filterMap]
+    constructor
+    · rintro ⟨g, hg, e⟩; exact ⟨g, (hset g).mp hg, e⟩
+    · rintro ⟨g, hg, e⟩; exact ⟨g, (hset g).mpr hg, e⟩
+  rw [foldl_stepA_set hfun hmem]
+  exact foldl_stepA_congr _ (h1 i) rfl
+
+/-- UPWARD INFERENCE OVER A CONNECTIVE IS ORDER-FREE: on states that denote the same finite maps
+`fUpConn` produces states that denote the same finite maps and reports the same amount.
+`hslots`: the variable maps only use slots `0 … numVars-1`. -/
+theorem fUpConn_congr (kb : FKB ι α) (i : ι) {s s' : FState ι α} (h : SEq s s')
+    (hslots : ∀ m ∈ (kb i).opmap, ∀ c ∈ m, c < numVars (kb i)) :
+    SEq (fUpConn kb i s).1 (fUpConn kb i s').1 ∧ (fUpConn kb i s).2 = (fUpConn kb i s').2 := by
+  have hG := (groundings_congr kb i false h).1
+  rw [fUpConn_eq, fUpConn_eq]
+  cases hh : isHomogeneous (kb i) with
+  | true =>
+    rw [groundings_homog kb i false s hh, groundings_homog kb i false s' hh] at hG
+    rw [groundings_homog kb i false s hh, groundings_homog kb i false s' hh]
+    dsimp only at hG ⊢
+    obtain ⟨e1, e2⟩ := up_core kb i hG (homF (kb i)) (fun k _ => rowsOf_hom (kb i) _ k)
+      (fun k _ => rowsOf_hom (kb i) _ k) (homGs_congr kb i false h)
+    exact ⟨hG.set i e1, e2⟩
+  | false =>
+    rcases foldJoin_congr (relsOf_congr kb i h) with ⟨h1, h2⟩ | ⟨J, J', h1, h2, hJ⟩
+    · rw [groundings_hetero_none kb i false s hh h1, groundings_hetero_none kb i false s' hh h2]
+      exact ⟨h, rfl⟩
+    · cases hne : J.rows.isEmpty with
+      | true =>
+        have hne' : J'.rows.isEmpty = true := by rw [← hJ.2.isEmpty]; exact hne
+        rw [groundings_hetero_empty kb i false s hh h1 hne,
+          groundings_hetero_empty kb i false s' hh h2 hne']
+        exact ⟨h, rfl⟩
+      | false =>
+        have hne' : J'.rows.isEmpty = false := by rw [← hJ.2.isEmpty]; exact hne
+        rw [groundings_hetero kb i false s hh h1 hne, groundings_hetero kb i false s' hh h2 hne']
+          at hG
+        rw [groundings_hetero kb i false s hh h1 hne, groundings_hetero kb i false s' hh h2 hne']
+        dsimp only at hG ⊢
+        obtain ⟨e1, e2⟩ := up_core kb i hG (hetF (kb i)) (rowsOf_het (kb i) J hslots)
+          (rowsOf_het (kb i) J' hslots) (ogsOf_congr (kb i) hJ)
+        exact ⟨hG.set i e1, e2⟩
+
+/-- a fold of `aggRow` over a list of groundings with proposals given by a function of the
+grounding: only the set of groundings and the denoted start table matter -/
+theorem foldl_keys_congr {gs gs' : List Gr} (hset : ∀ g, g ∈ gs ↔ g ∈ gs') {P P' : Gr → Bounds α}
+    (hP : ∀ g, P g = P' g) {t0 t0' : Table α} (ht : TEq t0 t0') :
+    TEq (gs.foldl (fun (acc : Table α × α) g => stepA acc (g, P g)) (t0, 0)).1
+        (gs'.foldl (fun (acc : Table α × α) g => stepA acc (g, P' g)) (t0', 0)).1 ∧
+      (gs.foldl (fun (acc : Table α × α) g => stepA acc (g, P g)) (t0, 0)).2 =
+        (gs'.foldl (fun (acc : Table α × α) g => stepA acc (g, P' g)) (t0', 0)).2 := by
+  have e : P' = P := (funext hP).symm
+  subst e
+  have hm : ∀ (l : List Gr) (z : Table α × α),
+      l.foldl (fun (acc : Table α × α) g => stepA acc (g, P' g)) z =
+        (l.map fun g => (g, P' g)).foldl stepA z := by
+    intro l z
+    rw [List.foldl_map]
+  rw [hm, hm]
+  have hfun : ∀ x ∈ gs.map (fun g => (g, P' g)), ∀ y ∈ gs.map (fun g => (g, P' g)),
+      x.1 = y.1 → x = y := by
+    intro x hx y hy hxy
+    obtain ⟨gx, _, rfl⟩ := List.mem_map.mp hx
+    obtain ⟨gy, _, rfl⟩ := List.mem_map.mp hy
+    simp only at hxy
+    rw [hxy]
+  have hmem : ∀ y, y ∈ gs.map (fun g => (g, P' g)) ↔ y ∈ gs'.map (fun g => (g, P' g)) := by
+    intro y
+    simp only [List.mem_map]
+    constructor
+    · rintro ⟨g, hg, e⟩; exact ⟨g, (hset g).mp hg, e⟩
+    · rintro ⟨g, hg, e⟩; exact ⟨g, (hset g).mpr hg, e⟩
+  rw [foldl_stepA_set hfun hmem]
+  exact foldl_stepA_congr _ ht rfl
+
+omit [DecidableEq ι] [Field α] [LinearOrder α] [IsStrictOrderedRing α] in
+theorem keys_isEmpty_congr {t t' : Table α} (h : TEq t t') : t.keys.isEmpty = t'.keys.isEmpty := by
+  cases hk : t.keys with
+  | nil =>
+    cases hk' : t'.keys with
+    | nil => rfl
+    | cons g _ =>
+      have : g ∈ t.keys := (h.mem_keys g).mpr (by rw [hk']; exact List.mem_cons_self)
+      rw [hk] at this; cases this
+  | cons g _ =>
+    cases hk' : t'.keys with
+    | nil =>
+      have : g ∈ t'.keys := (h.mem_keys g).mp (by rw [hk]; exact List.mem_cons_self)
+      rw [hk'] at this; cases this
+    | cons _ _ => rfl
+
+omit [IsStrictOrderedRing α] in
+theorem fUpNot_eq (kb : FKB ι α) (i : ι) (s : FState ι α) :
+    fUpNot kb i s =
+      match (kb i).ops with
+      | [] => (s, 0)
+      | j :: _ =>
+        if (s.get j).keys.isEmpty then (s, 0) else
+          (s.set i (((s.get j).keys.foldl (fun (acc : Table α × α) g =>
+              stepA acc (g, negB (Table.getD (kb j).world (s.get j) g)))
+              (Table.addg (kb i).world (s.get i) (s.get j).keys, 0)).1),
+            ((s.get j).keys.foldl (fun (acc : Table α × α) g =>
+              stepA acc (g, negB (Table.getD (kb j).world (s.get j) g)))
+              (Table.addg (kb i).world (s.get i) (s.get j).keys, 0)).2) := rfl
+
+omit [IsStrictOrderedRing α] in
+theorem fDownNot_eq (kb : FKB ι α) (i : ι) (s : FState ι α) :
+    fDownNot kb i s =
+      match (kb i).ops with
+      | [] => (s, 0)
+      | j :: _ =>
+        if (s.get i).keys.isEmpty then (s, 0) else
+          (s.set j (((s.get i).keys.foldl (fun (acc : Table α × α) g =>
+              stepA acc (g, negB (Table.getD (kb i).world (s.get i) g)))
+              (Table.addg (kb j).world (s.get j) (s.get i).keys, 0)).1),
+            ((s.get i).keys.foldl (fun (acc : Table α × α) g =>
+              stepA acc (g, negB (Table.getD (kb i).world (s.get i) g)))
+              (Table.addg (kb j).world (s.get j) (s.get i).keys, 0)).2) := rfl
+
+/-- first-order negation, upward: order-free -/
+theorem fUpNot_congr (kb : FKB ι α) (i : ι) {s s' : FState ι α} (h : SEq s s') :
+    SEq (fUpNot kb i s).1 (fUpNot kb i s').1 ∧ (fUpNot kb i s).2 = (fUpNot kb i s').2 := by
+  rw [fUpNot_eq, fUpNot_eq]
+  cases (kb i).ops with
+  | nil => exact ⟨h, rfl⟩
+  | cons j _ =>
+    simp only [keys_isEmpty_congr (h j)]
+    split
+    · exact ⟨h, rfl⟩
+    · obtain ⟨e1, e2⟩ := foldl_keys_congr (fun g => (h j).mem_keys g)
+        (P := fun g => negB (Table.getD (kb j).world (s.get j) g))
+        (P' := fun g => negB (Table.getD (kb j).world (s'.get j) g))
+        (fun g => by rw [(h j).getD])
+        ((h i).addg (kb i).world fun g => (h j).mem_keys g)
+      exact ⟨h.set i e1, e2⟩
+
+/-- first-order negation, downward: order-free -/
+theorem fDownNot_congr (kb : FKB ι α) (i : ι) {s s' : FState ι α} (h : SEq s s') :
+    SEq (fDownNot kb i s).1 (fDownNot kb i s').1 ∧ (fDownNot kb i s).2 = (fDownNot kb i s').2 := by
+  rw [fDownNot_eq, fDownNot_eq]
+  cases (kb i).ops with
+  | nil => exact ⟨h, rfl⟩
+  | cons j _ =>
+    simp only [keys_isEmpty_congr (h i)]
+    split
+    · exact ⟨h, rfl⟩
+    · obtain ⟨e1, e2⟩ := foldl_keys_congr (fun g => (h i).mem_keys g)
+        (P := fun g => negB (Table.getD (kb i).world (s.get i) g))
+        (P' := fun g => negB (Table.getD (kb i).world (s'.get i) g))
+        (fun g => by rw [(h i).getD])
+        ((h j).addg (kb j).world fun g => (h i).mem_keys g)
+      exact ⟨h.set j e1, e2⟩
+
+end UpCongr
 
 end Join
 end LNN
